@@ -164,3 +164,27 @@ Proof.
   - intros x y w Hin. exact (proj1 (proj2 (C03_page_links_weight d rs h H1 H2 l inb int outb x y w Hwf Hin))).
 Qed.
 Print Assumptions C03_source_page_links.
+
+(* the link enumeration on the translated Traph.links_iter (GenTraphX.v): for EVERY history, both directions, the translated
+   generator yields exactly the distinct submitted links (their transposes for the inbound direction); the page degrees
+   (get_page_indegree / outdegree / degree, weighted or not) are sums / counts over the translated get_page_links
+   (GenTraphXFacts.py_traph_get_page_degrees_spec) *)
+From Traph Require GenTraphX GenTraphXFacts.
+Theorem C03_source_links_iter : forall d rs h, wf_rules rs -> Forall wf_op h ->
+  let s := run d rs h in let a := srun d rs h in
+  forall sg sgl,
+    GenTrieFacts.trep (TraceDefs.files_of s) sg -> lrep (stubs s) sgl -> fits (nb s * bsz) -> fits (saddr (length (stubs s))) ->
+    (exists sg' ans, GenTraphX.py_traph_links_iter sg sgl true = Some (ans, sg') /\ pm_array sg' = pm_array sg /\
+       set_eq ans (dedup_pairs (a_links a))) /\
+    (exists sg' ans, GenTraphX.py_traph_links_iter sg sgl false = Some (ans, sg') /\ pm_array sg' = pm_array sg /\
+       set_eq ans (map (fun p => (snd p, fst p)) (dedup_pairs (a_links a)))).
+Proof.
+  intros d rs h H1 H2 s a sg sgl Hrep Hl Hf1 Hf2.
+  destruct (C03_links_iter d rs h H1 H2) as [Ho Hi]. fold s a in Ho, Hi.
+  split.
+  - destruct (GenTraphXFacts.py_traph_links_iter_spec d rs h H1 H2 sg sgl Hrep Hl Hf1 Hf2 true) as (sg' & E & _ & Harr).
+    exists sg', (links_iter true s). fold s in E. split; [exact E|]. split; [exact Harr|exact Ho].
+  - destruct (GenTraphXFacts.py_traph_links_iter_spec d rs h H1 H2 sg sgl Hrep Hl Hf1 Hf2 false) as (sg' & E & _ & Harr).
+    exists sg', (links_iter false s). fold s in E. split; [exact E|]. split; [exact Harr|exact Hi].
+Qed.
+Print Assumptions C03_source_links_iter.
